@@ -291,7 +291,9 @@ int aln_seqseq_meetup(struct aln_mem* m,int old_cor[],int* meet,int* t,float* sc
                 }
 
 
-                if(m->startb == 0){
+                /* the terminal penalty applies to a gap in front of the first residue of b only (i == 0), as in the
+                   forward and backward recurrences; at every other i the gap is internal */
+                if(i == 0){
                         if(f[i].gb+b[i].gb - tgpe-sub > max){
                                 max = f[i].gb+b[i].gb -tgpe-sub;
                                 //			fprintf(stderr,"gap_b->gap_b:%d + %d +%d(gpe) =%d \n",f[i].gb, b[i].gb, prof1[28],f[i].gb+b[i].gb+prof1[28]);
